@@ -15,8 +15,8 @@ namespace Givaro {
     template<class Domain>
     inline Poly1Dom<Domain,Dense>::Poly1Dom(const Domain& d, const Indeter& X ) :
         _domain(d), _x(X)
-        , zero(1,d.zero), one(1,d.one)
-        , mOne(1,d.mOne)
+        , zero(), one(1,d.one)   // zero in normal form (no coefficient): [0] was stripped by the first const
+        , mOne(1,d.mOne)         // degree()/assign() that met it (a write to the shared domain object)
     {}
 
     template<class Domain>
